@@ -147,6 +147,15 @@ func (m *AppPlacementManager) PlaceApplication(app *objects.Application) error {
 				zap.String("application", app.ApplicationID))
 			break
 		}
+		// The recovery queue is reserved for forced placement: any other rule returning it is a no match
+		if common.IsRecoveryQueue(queueName) && !app.IsCreateForced() {
+			log.Log(log.SchedApplication).Debug("Rule returned the recovery queue for a non forced application",
+				zap.String("ruleName", checkRule.getName()),
+				zap.String("application", app.ApplicationID))
+			// reset the queue name for the last rule in the chain
+			queueName = ""
+			continue
+		}
 		// queueName returned make sure ACL allows access and set the queueName in the app
 		queue := m.queueFn(queueName)
 		// walk up the tree if the queue does not exist
